@@ -490,7 +490,6 @@ static ExecOut execute(uint64_t seed, int mode, int preempts, const std::vector<
     }
     if (lt.size() != final_map.size() && out.ok) { out.ok = false; out.why = "size() = " + std::to_string(lt.size()) + " but the table holds " + std::to_string(final_map.size()) + " pairs"; }
   }
-  if (out.ok && !g_viol.empty()) { out.ok = false; out.why = "protocol: " + g_viol[0]; }
   if (out.ok && S.budget) { out.ok = false; out.why = "step budget exceeded (livelock?)"; }
   if (out.ok) {
     std::string inv = check_inv(tbl);
@@ -517,6 +516,9 @@ static ExecOut execute(uint64_t seed, int mode, int preempts, const std::vector<
       out.why = "history is not linearizable (final contents: " + fm + ")";
     }
   }
+  // protocol / lockset rule violations are reported when no observable failure was found in this execution
+  if (out.ok && !g_viol.empty()) { out.ok = false; out.why = "protocol: " + g_viol[0]; }
+  else if (!out.ok && !g_viol.empty()) out.why += " [also protocol: " + g_viol[0] + "]";
   if (want_trace && trace_out) {
     std::string s;
     for (auto &e : S.trace) {
@@ -599,8 +601,9 @@ int main() {
       is >> mode >> pre >> seed0 >> count >> opt;
       FILE *pf = nullptr;
       if (opt == "ptrace") { is >> ppath >> pevery; pf = fopen(ppath.c_str(), "a"); if (pevery < 1) pevery = 1; }
-      long bad = 0; size_t events = 0; std::string first_why, first_hist, first_choices, trace;
+      long bad = 0, bad_obs = 0; size_t events = 0; std::string first_why, first_hist, first_choices, trace;
       uint64_t first_seed = 0;
+      bool first_is_obs = false;
       for (long i = 0; i < count; ++i) {
         std::string tr;
         ExecOut o = execute(seed0 + i, mode, pre, {}, opt == "trace" && i == 0, &tr);
@@ -608,14 +611,18 @@ int main() {
         if (pf && i % pevery == 0) { std::string pt = ptrace_text(); fwrite(pt.data(), 1, pt.size(), pf); }
         events += o.events;
         if (!o.ok) {
-          if (!bad) {
-            first_why = o.why; first_hist = o.history; first_seed = seed0 + i;
+          bool obs = o.why.rfind("protocol:", 0) != 0;
+          if (obs) ++bad_obs;
+          // keep the first execution with an observable failure; else the first protocol-only one
+          if (!bad || (obs && !first_is_obs)) {
+            first_why = o.why; first_hist = o.history; first_seed = seed0 + i; first_is_obs = obs;
+            first_choices.clear();
             for (int c : o.choices) first_choices += std::to_string(c) + " ";
           }
           ++bad;
         }
       }
-      printf("{\"runs\":%ld,\"bad\":%ld,\"events\":%zu,\"first_seed\":%llu,\"why\":\"%s\",\"history\":\"%s\",\"choices\":\"%s\"", count, bad, events,
+      printf("{\"runs\":%ld,\"bad\":%ld,\"bad_observable\":%ld,\"events\":%zu,\"first_seed\":%llu,\"why\":\"%s\",\"history\":\"%s\",\"choices\":\"%s\"", count, bad, bad_obs, events,
              (unsigned long long)first_seed, jesc(first_why).c_str(), jesc(first_hist).c_str(), first_choices.c_str());
       if (pf) fclose(pf);
       if (opt == "trace") printf(",\"trace\":\"%s\"", jesc(trace).c_str());
